@@ -454,7 +454,7 @@ def check_histories(tier, seed):
         def ok(r):
             return not allowed or all(s.name in allowed for s in r.reactants + r.products)
         for step in range(rnd.randint(3, 12)):
-            op = rnd.choice(["add", "add", "add", "remove_idx", "remove_list", "remove_inst", "allow", "require", "dedup", "reindex"])
+            op = rnd.choice(["add", "add", "add", "remove_idx", "remove_list", "remove_list_rep", "remove_where", "remove_inst", "allow", "require", "dedup", "reindex"])
             try:
                 if op == "add":
                     r = mk()
@@ -471,6 +471,21 @@ def check_histories(tier, seed):
                     hist.append(f"remove_reaction({idxs})")
                     net.remove_reaction(idxs)
                     held = [r for k, r in enumerate(held) if k not in idxs]
+                elif op == "remove_list_rep" and len(held) >= 3:
+                    # an index list may name a reaction twice (e.g. the union of two where_species results), in any order
+                    a_, b_ = rnd.sample(range(len(held)), 2)
+                    idxs = [a_, b_, a_] if rnd.random() < 0.5 else [b_, a_, b_, a_]
+                    hist.append(f"remove_reaction({idxs})")
+                    net.remove_reaction(idxs)
+                    held = [r for k, r in enumerate(held) if k not in idxs]
+                elif op == "remove_where" and held:
+                    s1, s2 = rnd.sample(alphabet, 2)
+                    idxs = net.where_species(s1) + net.where_species(s2)
+                    if not idxs:
+                        continue
+                    hist.append(f"remove_reaction(where_species({s1}) + where_species({s2}) = {idxs})")
+                    net.remove_reaction(idxs)
+                    held = [r for r in held if not any(s.name in (s1, s2) for s in r.reactants + r.products)]
                 elif op == "remove_inst" and held:
                     r = rnd.choice(held)
                     hist.append(f"remove_reaction(<{r:minimal}>)")
